@@ -18,6 +18,7 @@ ASSUMPTIONS = ["durations are rationals with small denominators: distinct exact 
 PROF = sched_gen.profile(
     n_streams=(1, 3), p_chord=0.05, p_subtick=0.0, p_rest=0.02, p_zero_amp=0.02, p_zero_gate=0.02, p_inactive=0.02,
     p_control=0.02, p_program=0.0, gates="short", tolerant=0.0, steps=(4, 12), tick_run=(5, 400),
+    p_action=0.06, p_action_exc=0.05, p_action_stop=0.0,      # callbacks that nudge / update tracks (also their own) mid-tick
     op_weights=dict(sched=1.5, upd=1, unsched=0.2, clear=0.0, mute=0.1, unmute=0.1, nudge=3), p_count=0.05, p_keep=0.0,
     initial_sched=(1, 2), max_dur_ticks=6)
 
@@ -100,7 +101,16 @@ def float_drift_horizon(tpb, q, durs, delay, nticks):
 def closed_eval(args):
     """worker: run one closed-form case on the implementation; returns a picklable verdict"""
     lines, tpb, q, durs, delay, nticks, tag = args
-    out = sched_impl.run_lines(lines)
+    import signal
+    signal.signal(signal.SIGALRM, sched_suite._alarm)
+    signal.alarm(int(30 + nticks / 2000))
+    try:
+        out = sched_impl.run_lines(lines)
+    except sched_suite.CaseTimeout:
+        return {"args": args, "first_onsets": [], "bad": [], "impl_head": [], "sig": "C01:hang",
+                "what": "tick() did not return (tpb=%d q=%d durations=%s delay=%d)" % (tpb, q, durs[:8], delay)}
+    finally:
+        signal.alarm(0)
     impl = out[1:]
     exp = expected_onsets(q, durs, delay, nticks)
     obs = observed_onsets(impl)
